@@ -119,7 +119,7 @@ def replay_run(sc, schedule):
     return datarun.run_scenario(sc, ch, eager=eager)
 
 
-def _digest(r, pid, src):
+def _digest(r, pid, src, model=True):
     """everything the parent needs from one run, as plain data"""
     F = datarun.Facts(r)
     viol = []
@@ -129,7 +129,8 @@ def _digest(r, pid, src):
     if r.crashes:
         viol.append({'case': {'scenario': r.sc.describe(), 'schedule': [c for c, _ in r.taken], 'source': src},
                      'detail': 'a library thread / pool job died with %r' % (r.crashes[0],), 'key': {'kind': 'crash'}, 'kind': 'schedule'})
-    return {'prep': datarun.prepare(r), 'viol': viol, 'status': r.status, 'ntaken': len(r.taken), 'steps': len(r.trace),
+    return {'prep': datarun.prepare(r) if model else {'scenario': r.sc.describe(), 'schedule': [c for c, _ in r.taken], 'fine': True},
+            'viol': viol, 'status': r.status, 'ntaken': len(r.taken), 'steps': len(r.trace),
             'lines': [p[3] for p in F.puts][:12]}
 
 
@@ -162,6 +163,14 @@ def _work(job):
             else:
                 ch = dsched.RandomChooser(random.Random(s2))
                 src = 'random'
+            if i % 40 == 39:
+                # line-granular preemption, oracle only (the label mapping of the model works at region granularity)
+                r = datarun.run_scenario(sc, dsched.RandomChooser(random.Random(s2)), eager=('writer',), fine=True, fine_seed=s2)
+                d = _digest(r, pid, 'fine', model=False)
+                for v in d['viol']:
+                    v['case']['fine_seed'] = s2
+                out.append(d)
+                continue
             r = datarun.run_scenario(sc, ch, eager=('writer',))
             out.append(_digest(r, pid, src))
     elif kind == 'corpus':
@@ -210,9 +219,10 @@ def explore(ctx, res, pid):
             res.count('dfs-scenario')
         for d in out:
             res.evaluations += 1
-            res.count(kind)
+            res.count(kind if not d['prep'].get('fine') else 'line-granular (oracle only)')
             steps += d['steps']
-            preps.append(d['prep'])
+            if not d['prep'].get('fine'):
+                preps.append(d['prep'])
             viol += d['viol']
             if d['ntaken'] >= 2:
                 res.nontrivial.add((json.dumps(d['prep']['scenario'], sort_keys=True, default=str), tuple(d['prep']['schedule'])))
@@ -256,7 +266,7 @@ def minimise(ctx, v, pid):
         r = datarun.run_scenario(sc, ch, eager=src_eager)
         F = datarun.Facts(r)
         return any(k.get('kind') == want for _, k in datarun.ORACLES[pid](r, F))
-    if v['case'].get('source') == 'dfs' or not fails(sched):
+    if v['case'].get('source') in ('dfs', 'fine') or not fails(sched):
         return v            # bounded chooser semantics differ from the list chooser: keep as is
     while sched and fails(sched[:-1]):
         sched = sched[:-1]
@@ -280,6 +290,8 @@ def replay(ctx, data, pid):
         r = datarun.run_scenario(sc, ch, eager=eager)
     elif src == 'random':
         r = datarun.run_scenario(sc, dsched.ListChooser(c['schedule']), eager=('writer',))
+    elif src == 'fine':
+        r = datarun.run_scenario(sc, dsched.ListChooser(c['schedule']), eager=('writer',), fine=True, fine_seed=c.get('fine_seed', 0))
     else:
         r = datarun.run_scenario(sc, dsched.ListChooser(c['schedule']), eager=eager if str(src).startswith('corpus') else ('writer',))
     F = datarun.Facts(r)
